@@ -4,8 +4,10 @@ OV = {"Args", "ByzPosts", "Faults", "Tampers", "Plants", "Ticks"}
 BASE = dict(N=3, T=2, NV=1, Cmds="{1, 2, 3}", DupLastWins="TRUE", Defect='"none"', Honest="{1, 2}", Args="ArgsCore", ByzPosts="ByzNone",
             MaxByz=0, Faults="FApi", MaxFault=1, Tampers="TAll", MaxTamper=1, Plants="PNone", MaxPlant=0, Ticks="TkNone", MaxTick=0,
             Nodes="{1}", NodeApiOn="TRUE", NodeWatch="TRUE", MaxNode=1, Policy='"free"')
-INV = "Safety ViewNewest TimerSane"
-PROPS = "MCFetchWritesGood MCFileStable MCNodeKeeps MCSignJoins"
+INV = "Safety ViewNewestButD1 TimerSane"            # as coded: D1 is in
+PROPS = "MCFetchWritesGoodButD1 MCFileStable MCNodeKeeps MCSignJoins"
+INV_STRICT = "Safety ViewNewest TimerSane"
+PROPS_STRICT = "MCFetchWritesGood MCFileStable MCNodeKeeps MCSignJoins"
 
 
 def mc(name, inv=INV, props=PROPS, spec="MCSpec", view=True, **kw):
@@ -35,19 +37,20 @@ mc("bad", Args="ArgsBad", Plants="PSome", MaxPlant=1, **NOTAMP, **NOFAULT, **NON
 mc("list", Args="ArgsList", Plants="PSome", MaxPlant=1, **NOTAMP, **NOFAULT, **NONODE)
 mc("plant", Args="ArgsFetch", Plants="PSomeOld", MaxPlant=2, MaxNode=3, Cmds="{1, 2}", ByzPosts="Byz3", **NOTAMP)
 mc("timer", Args="ArgsFetch", Cmds="{1}", Ticks="TkHour", MaxTick=3, NodeWatch="FALSE", MaxNode=2, ByzPosts="Byz3", MaxByz=2, Tampers="TGroups", MaxFault=2)
-mc("strict", DupLastWins="FALSE", Args="ArgsFetch", Plants="PDup", MaxPlant=2, MaxNode=2, Cmds="{1, 2}", Tampers="TGroups")
+mc("strict", inv=INV_STRICT, props=PROPS_STRICT, DupLastWins="FALSE", Args="ArgsFetch", Plants="PDup", MaxPlant=2, MaxNode=2, Cmds="{1, 2}", Tampers="TGroups")
 mc("four", N=4, T=3, Honest="{1, 2, 3}", Cmds="{1, 2, 3, 4}", Args="ArgsOne", **NOTAMP, **NOFAULT)
-mc("core_thorough", Cmds="{1, 2, 3, 4}", MaxTamper=2)
+mc("core_thorough", Cmds="{1, 2, 3, 4}", Tampers="TSig")
+mc("strict_api", inv=INV_STRICT, props=PROPS_STRICT, DupLastWins="FALSE", Args="ArgsTwoFr", Cmds="{1, 2, 3, 4}", Tampers="TGroups", **NOFAULT)
 mc("bad_thorough", Args="ArgsBad", Plants="PSome", MaxPlant=1, **NOTAMP, **NONODE)
 mc("list_thorough", Args="ArgsList", Plants="PSome", MaxPlant=1, Tampers="TGroups", **NOFAULT, **NONODE)
 mc("timer_thorough", Args="ArgsFetch", Cmds="{1}", Ticks="TkHour", MaxTick=4, NodeWatch="FALSE", MaxNode=2, ByzPosts="Byz3", MaxByz=2, Tampers="TGroups", MaxFault=2)
-mc("twofr_thorough", Args="ArgsTwoFr", Tampers="TAll", Cmds="{1, 2, 3, 4}", ByzPosts="Byz3", MaxByz=1)
+mc("twofr_thorough", Args="ArgsTwoFr", Tampers="TGroups", Cmds="{1, 2, 3, 4}", **NOFAULT)
 mc("byz_thorough", Args="ArgsTwoFr", ByzPosts="Byz3", MaxByz=2, Tampers="TSig", **NOFAULT)
-mc("two_thorough", NV=2, Args="ArgsTwo", Tampers="TAll", Plants="PTwo", MaxPlant=1, Cmds="{1, 2, 3, 4}")
+mc("two_thorough", NV=2, Args="ArgsTwo", Tampers="TAll", Plants="PTwo", MaxPlant=1)
 mc("now_thorough", Args="ArgsNow", Ticks="TkHour", MaxTick=2, NodeWatch="FALSE", Tampers="TGroups", **NOFAULT)
 mc("gas_thorough", Args="ArgsGas", Plants="PSome", MaxPlant=1, **NOTAMP, **NOFAULT)
 mc("four_thorough", N=4, T=3, Honest="{1, 2, 3}", Cmds="{1, 2, 3, 4}", Args="ArgsCore", Tampers="TSig", **NOFAULT)
-mc("strict_thorough", DupLastWins="FALSE", Args="ArgsCore", Plants="PDup", MaxPlant=2, MaxNode=2, Tampers="TGroups")
+mc("strict_thorough", inv=INV_STRICT, props=PROPS_STRICT, DupLastWins="FALSE", Args="ArgsCore", Plants="PDup", MaxPlant=2, MaxNode=2, Tampers="TGroups")
 LIVE = dict(inv="", props="Applied Terminates", spec="FairSpec", view=False, Policy='"live"', Args="ArgsLive", Faults="FApi", MaxFault=1,
             Cmds="{1, 2, 3, 4, 5}", **NOTAMP)
 mc("live", **LIVE)
@@ -60,6 +63,7 @@ mc("ctl_noAdopt", inv="", props="MCSignJoins", Defect='"noAdopt"', **NOTAMP, **N
 mc("ctl_noValidateTs", inv="", props="MCSignJoins", Defect='"noValidateTs"', Args="ArgsBad", **NOTAMP, **NONODE)
 mc("ctl_applyOlder", inv="ViewSound", props="", Defect='"applyOlder"', Args="ArgsFetch", Cmds="{1}", Plants="POld", MaxPlant=1, **NOTAMP)
 mc("ctl_D1_view", inv="ViewNewest", props="", Args="ArgsFetch", Plants="PDup", MaxPlant=1, Cmds="{1}", **NOTAMP)
+mc("ctl_D1_api", inv="ViewNewest", props="", Args="ArgsTwoFr", Cmds="{1, 2, 3, 4}", Tampers="TGroups", **NOFAULT)
 mc("ctl_D1_file", inv="", props="MCFetchWritesGood", Args="ArgsCore", Plants="PDup", MaxPlant=1, **NOTAMP, **NONODE)
 mc("ctl_live_noAdopt", **dict(LIVE, Defect='"noAdopt"'))
 
